@@ -275,7 +275,9 @@ func vp8RtCase(x *Ctx, mk func(c *Case) (enable bool, warm int, calls []PayCall)
 		all := make([][][]byte, 0, len(calls))
 		for _, call := range calls {
 			var frags [][]byte
-			if try(func() { frags = pay.Payload(call.MTU, cloneBytes(call.Input)) }) {
+			// the frame is handed over exactly sized or as a window of a larger array (payWindow)
+			_, in := payWindow(call.Input, int(call.MTU))
+			if try(func() { frags = pay.Payload(call.MTU, in) }) {
 				// a panic is not representable in this kind's observation: make the line unparsable
 				c.O.Tok("PAYLOAD-PANIC")
 				return
